@@ -182,6 +182,33 @@ class Run:
         return 1 if viol else 0
 
 
+def thorough_extras(run, mod):
+    """thorough tier: property-specific deep pass (if the module has one), whole-package cross-reference lints
+    (observations only) and the checker self-test on this property's mutant / neutral variants (non-fatal self-assessment)"""
+    if hasattr(mod, 'thorough'):
+        mod.thorough(run)
+    from . import lints, selftest
+    try:
+        run.extra['observations'] = lints.run_all(run.A)
+    except Exception as e:      # observations never decide anything
+        run.extra['observations'] = {'error': repr(e)}
+    try:
+        corpus = [v for v in selftest.load_corpus() if run.pid in (v.get('properties') or [v.get('property')])]
+        from concurrent.futures import ProcessPoolExecutor
+        import os as _os
+        with ProcessPoolExecutor(max_workers=int(_os.environ.get('PBV_JOBS', '16'))) as ex:
+            res = list(ex.map(selftest.run_variant_for, [(v, run.pid) for v in corpus]))
+        summary = {}
+        for r in res:
+            summary[r['status']] = summary.get(r['status'], 0) + 1
+        run.extra['selftest'] = dict(variants=len(res), summary=summary,
+                                     not_killed=[r['id'] for r in res if r['status'] in ('missed', 'fired-elsewhere')],
+                                     false_alarms=[r['id'] for r in res if r['status'] == 'false-alarm'])
+        print(f'   selftest ({run.pid}): {len(res)} variants {summary}')
+    except Exception as e:
+        run.extra['selftest'] = {'error': repr(e)}
+
+
 def loc(fn, node=None):
     try:
         return fn.loc(node)
@@ -228,6 +255,8 @@ def main(argv=None):
             run = Run(pid, tier, A)
             try:
                 mod.check(run)
+                if tier == 'thorough':
+                    thorough_extras(run, mod)
                 r = run.finish()
             except AnalysisError as e:
                 print(f'ANALYSIS-ERROR property={pid}: {e}')
